@@ -65,6 +65,12 @@ func instantiate(h *Term, skolems []*Term, out *[]*Term) {
 }
 
 func (ob *Obligation) smt(withModel bool, filter bool) string {
+	return ob.smtOpt(withModel, filter, false)
+}
+
+// smtOpt: dropQuant omits quantified hypotheses (a weaker premise: unsat still proves the
+// obligation; a model of the relaxed query is only a candidate counterexample).
+func (ob *Obligation) smtOpt(withModel bool, filter bool, dropQuant bool) string {
 	var skolems []*Term
 	goal := stripForall(ob.Goal, &skolems)
 	hyps := append([]*Term(nil), ob.Hyps...)
@@ -76,6 +82,15 @@ func (ob *Obligation) smt(withModel bool, filter bool) string {
 			}
 		}
 		hyps = append(hyps, extra...)
+	}
+	if dropQuant {
+		var qf []*Term
+		for _, h := range hyps {
+			if !hasQuant(h) {
+				qf = append(qf, h)
+			}
+		}
+		hyps = qf
 	}
 	if filter {
 		hyps = relevant(hyps, goal)
@@ -292,6 +307,7 @@ func discharge(obls []*Obligation, dir string, timeoutS int, agree bool, workers
 	sem := make(chan struct{}, workers)
 	texts := make([]string, len(obls))
 	fullTexts := make([]string, len(obls)) // unfiltered query, used when the filtered one is not proved
+	qfTexts := make([]string, len(obls))   // quantified hypotheses dropped, used when the solvers give up
 	for i, ob := range obls {
 		if ob.Status != "" {
 			continue
@@ -305,6 +321,9 @@ func discharge(obls []*Obligation, dir string, timeoutS int, agree bool, workers
 		texts[i] = ob.smt(true, true)
 		if len(ob.Hyps) >= 40 {
 			fullTexts[i] = ob.smt(true, false)
+		}
+		if ob.Quant && !hasQuant(ob.Goal) {
+			qfTexts[i] = ob.smtOpt(true, true, true)
 		}
 		if ob.Kind != "batch" {
 			ob.Hyps = nil // release memory
@@ -361,13 +380,44 @@ func discharge(obls []*Obligation, dir string, timeoutS int, agree bool, workers
 					}
 					r = solveResult{verdict: "unknown", backend: "none", output: "VC too large " + big}
 				} else {
-					os.WriteFile(file, []byte(text), 0o644)
-					r, _ = solve(file, timeoutS, agree && ob.Expect == "unsat")
-					if ob.Expect == "unsat" && r.verdict != "unsat" && fullTexts[i] != "" && fullTexts[i] != text {
-						// the cone-of-influence filter may have dropped an inconsistency of the path
-						// condition (infeasible path): decide on the full hypothesis set
-						os.WriteFile(file, []byte(fullTexts[i]), 0o644)
-						r, _ = solve(file, timeoutS, agree)
+					proved := false
+					var relaxed *solveResult
+					if ob.Expect == "unsat" && qfTexts[i] != "" {
+						// quantified premise: first the quantifier-free relaxation (a weaker premise,
+						// so unsat is a proof; sat is only a candidate counterexample)
+						os.WriteFile(file, []byte(qfTexts[i]), 0o644)
+						r0, _ := solve(file, timeoutS, agree)
+						if r0.verdict == "unsat" {
+							r = r0
+							r.backend += "(qf-relaxed)"
+							proved = true
+						} else if r0.verdict == "sat" {
+							rr := r0
+							relaxed = &rr
+						}
+					}
+					if !proved && ob.Kind == "batch" && relaxed != nil {
+						// some member probably fails: let the members be decided one by one
+						r = solveResult{verdict: "unknown", backend: "none", output: "batch not proved"}
+						proved = true
+					}
+					if !proved {
+						tmo := timeoutS
+						if relaxed != nil && tmo > 4 {
+							tmo = 4 // a proof by quantifier instantiation is fast or does not come at all
+						}
+						os.WriteFile(file, []byte(text), 0o644)
+						r, _ = solve(file, tmo, agree && ob.Expect == "unsat")
+						if ob.Expect == "unsat" && r.verdict != "unsat" && fullTexts[i] != "" && fullTexts[i] != text {
+							// the cone-of-influence filter may have dropped an inconsistency of the path
+							// condition (infeasible path): decide on the full hypothesis set
+							os.WriteFile(file, []byte(fullTexts[i]), 0o644)
+							r, _ = solve(file, tmo, agree)
+						}
+						if ob.Expect == "unsat" && r.verdict != "unsat" && r.verdict != "sat" && relaxed != nil {
+							r = *relaxed
+							r.backend += "(qf-relaxed)"
+						}
 					}
 				}
 				solveMu.Lock()
